@@ -93,6 +93,8 @@ def parse (base : Int) (s0 : List Nat) : Option Parsed :=
     match scanMant dv b mant with
     | none => none
     | some (ds, dot) =>
+      -- :336-342: with a zero mantissa the function returns 0 before the exponent is looked at
+      if Radix.ofDigits b ds = 0 then some ⟨neg, b, ds, dot.getD 0, 0⟩ else
       match (match ex with | none => some (0 : Int) | some e => scanExp dv eb e) with
       | none => none
       | some x => some ⟨neg, b, ds, dot.getD 0, x⟩
